@@ -219,10 +219,16 @@ class Repo:
                     raise Unsupported(f"{key}: nested function {p} not found")
                 fi = FuncInfo(key, m, inner[0], kind="nested")
             return fi
-        if parts[0] in m.classes and len(parts) == 2:
+        if parts[0] in m.classes and len(parts) >= 2:
             ci = m.classes[parts[0]]
             if parts[1] in ci.methods:
-                return ci.methods[parts[1]]
+                fi = ci.methods[parts[1]]
+                for p in parts[2:]:  # closure defined inside a method: 'Class.method.inner'
+                    inner = [n for n in ast.walk(fi.node) if isinstance(n, ast.FunctionDef) and n.name == p and n is not fi.node]
+                    if not inner:
+                        raise Unsupported(f"{key}: nested function {p} not found")
+                    fi = FuncInfo(key, m, inner[0], kind="nested")
+                return fi
         raise Unsupported(f"{key}: not found in current source")
 
     def lookup_class(self, key) -> ClassInfo:
